@@ -196,6 +196,15 @@ fn check_run(ctx: &mut Ctx, wl: &str, case: u64, p: &Problem, st: &clarabel::sol
             if iters.len() as u64 > st.max_iter as u64 + 2 {
                 fails.push(("too_many_iteration_events", json!({"events": iters.len(), "max_iter": st.max_iter})));
             }
+            // the solver's own clock (the one the time limit is tested against) must advance while it iterates
+            if iters.len() >= 4 {
+                let (first, last) = (iters.first().unwrap(), iters.last().unwrap());
+                let nondecreasing = iters.windows(2).all(|w| w[1].solve_time >= w[0].solve_time);
+                if !nondecreasing || !(last.solve_time > first.solve_time) {
+                    fails.push(("solver_clock_does_not_advance", json!({"clock_at_first_event": first.solve_time, "clock_at_last_event": last.solve_time, "events": iters.len()})));
+                }
+                ctx.bump("runs_with_clock_progress_checked");
+            }
             // time limit, judged on the solver's own clock values
             if let Some(k) = iters.iter().position(|e| e.solve_time > st.time_limit) {
                 let idx_k = iters[k].iterations;
